@@ -177,6 +177,29 @@ impl Prop for C10 {
             cs.push(Case { pdus: vec![Pdu { updates: vec![Update::Bitmap(vec![rect(1, len)]), Update::Bitmap(vec![rect(2, 3)])], long_form: true, first_byte: 0 }], direct: true, coalesced: false, block: "data-length-direct" });
         }
         // E: many rectangles / many updates
+        // long sessions: 300 and 66 000 PDUs on one client (one or two updates each; every 5th carries a non-bitmap update)
+        for n in [300usize, 66_000] {
+            let pdus: Vec<Pdu> = (0..n).map(|k| Pdu { updates: if k % 50 == 49 { vec![] } else if k % 5 == 4 { vec![fastpath::other_update((2 + k % 14) as u8), Update::Bitmap(vec![rect((k % 60000) as u16, k % 6)])] } else { vec![Update::Bitmap(vec![rect((k % 60000) as u16, k % 4)])] }, long_form: k % 3 == 0, first_byte: 0 }).collect();
+            cs.push(Case { pdus, direct: false, coalesced: false, block: "long-session" });
+        }
+        // a session that has seen updates the client cannot parse (of the bitmap code and of others): what comes afterwards
+        // is delivered as usual
+        for a in alpha.iter().take(6) {
+            cs.push(Case { pdus: vec![Pdu { updates: vec![a.clone(), Update::Bitmap(vec![rect(7, 5), rect(8, 0)])], long_form: false, first_byte: 0 }, Pdu { updates: vec![Update::Bitmap(vec![rect(9, 3)])], long_form: true, first_byte: 0 }], direct: false, coalesced: false, block: "after-unparsable-updates" });
+        }
+        // update sizes x the capability list the server announced (its multifragment capability says what the SERVER can
+        // reassemble, not how large its updates are): small, large and small updates in one PDU, large ones alone
+        for block in ["update-size-x-capabilities:windows", "update-size-x-capabilities:minimal", "update-size-x-capabilities:small-multifragment", "update-size-x-capabilities:unknown-sets"] {
+            for big in [100usize, 1000, 3000, 16000] {
+                cs.push(Case { pdus: vec![Pdu { updates: vec![Update::Bitmap(vec![rect(1, 10)]), Update::Bitmap(vec![rect(2, big)]), Update::Bitmap(vec![rect(3, 10)])], long_form: true, first_byte: 0 }, Pdu { updates: vec![Update::Bitmap(vec![rect(4, big), rect(5, big / 2)])], long_form: true, first_byte: 0 }], direct: false, coalesced: false, block });
+            }
+        }
+        // a session that has seen slow-path frames the client refuses or ignores (a share-control PDU of a type it does not
+        // implement, a data PDU cut short, an unknown data PDU, an indication on another channel, a frame with an X.224
+        // header that is not a data header): the share is still active, the bitmap updates behind them are delivered
+        for a in alpha.iter().take(4) {
+            cs.push(Case { pdus: vec![Pdu { updates: vec![Update::Bitmap(vec![rect(17, 5), rect(18, 0)])], long_form: false, first_byte: 0 }, Pdu { updates: vec![a.clone(), Update::Bitmap(vec![rect(19, 3)])], long_form: true, first_byte: 0 }], direct: false, coalesced: false, block: "after-refused-slow-path-frames" });
+        }
         cs.push(Case { pdus: vec![Pdu { updates: vec![Update::Bitmap((0..200).map(|k| rect(k, (k % 7) as usize)).collect())], long_form: true, first_byte: 0 }], direct: false, coalesced: false, block: "many" });
         cs.push(Case { pdus: vec![Pdu { updates: (0..300).map(|k| if k % 3 == 0 { Update::Bitmap(vec![rect(k, 2)]) } else { fastpath::other_update((k % 16) as u8) }).collect(), long_form: true, first_byte: 0 }], direct: false, coalesced: false, block: "many" });
         // C2: every non-bitmap update code (2..15, and 0 = orders) carrying a body that is a perfectly good bitmap update
@@ -261,7 +284,7 @@ impl Prop for C10 {
         json!({"idx": idx, "block": c.block, "direct": c.direct, "pdus": brief, "forms": c.pdus.iter().map(|p| (p.long_form, p.first_byte)).collect::<Vec<_>>()})
     }
     fn rule(&self) -> String {
-        "cases = sequences of fast-path output PDUs delivered to a really activated client (raw stack) through RdpClient::read; PDUs of 0..3 updates over an alphabet of 19 updates (bitmap updates with 0,1,2,3 rectangles, with/without compression header, and 13 non-bitmap/unknown update codes); sequences of <=2 (<=3) PDUs, delivered one frame at a time (lock step) and all at once in one segment before the first read (both length forms, so that an empty PDU of either form is followed by more PDUs); every rectangle field at {0,1,0x7FFF,0xFFFF} one at a time and all-max, depths x flag combinations x data lengths {0,1,2,255,256}, short and long length forms, reserved header bits; every non-bitmap update code carrying a body that is a valid bitmap update payload; short-form PDUs of 120..127 bytes; long-form PDUs whose total length is k*256-1..k*256+3 (k=1..8) and around 4 KiB / 16 KiB / the 15-bit limit; 1023..3000 rectangles in one update and 1023..5000 updates in one PDU; data lengths up to the 15-bit frame limit and beyond it (0x7FFF..0xFFEC) through global::Client::read directly. Oracle: callback sequence == reference parser's rectangle list (count, order, nine fields, data). Non-trivial: >= 2 updates in total or a non-default field. The cases whose frames sit in one segment are delivered whole or 1, 3 or 7 bytes per read call (by case index). In every third multi-PDU case the application polls between two PDUs while nothing is pending and the transport answers WouldBlock / TimedOut: the later PDUs are delivered all the same.".into()
+        "cases = sequences of fast-path output PDUs delivered to a really activated client (raw stack) through RdpClient::read; PDUs of 0..3 updates over an alphabet of 19 updates (bitmap updates with 0,1,2,3 rectangles, with/without compression header, and 13 non-bitmap/unknown update codes); sequences of <=2 (<=3) PDUs, delivered one frame at a time (lock step) and all at once in one segment before the first read (both length forms, so that an empty PDU of either form is followed by more PDUs); every rectangle field at {0,1,0x7FFF,0xFFFF} one at a time and all-max, depths x flag combinations x data lengths {0,1,2,255,256}, short and long length forms, reserved header bits; every non-bitmap update code carrying a body that is a valid bitmap update payload; short-form PDUs of 120..127 bytes; long-form PDUs whose total length is k*256-1..k*256+3 (k=1..8) and around 4 KiB / 16 KiB / the 15-bit limit; 1023..3000 rectangles in one update and 1023..5000 updates in one PDU; data lengths up to the 15-bit frame limit and beyond it (0x7FFF..0xFFEC) through global::Client::read directly. Oracle: callback sequence == reference parser's rectangle list (count, order, nine fields, data). Non-trivial: >= 2 updates in total or a non-default field. The cases whose frames sit in one segment are delivered whole or 1, 3 or 7 bytes per read call (by case index). In every third multi-PDU case the application polls between two PDUs while nothing is pending and the transport answers WouldBlock / TimedOut: the later PDUs are delivered all the same. Two long sessions of 300 and 66 000 PDUs on one client. Six cases start with 48 malformed updates (every code x three bodies) that produce no event. Every 50th PDU of the long sessions carries no update at all. [update-size-x-capabilities] small / large / small updates in one PDU and large ones alone (100..16000 data bytes) under four capability lists incl. one whose multifragment capability announces MaxRequestSize = 64; [after-refused-slow-path-frames] bitmap updates after eight slow-path frames the client refuses or ignores (unimplemented share-control types, a data PDU cut short, an unknown data PDU, another channel, an X.224 header that is not a data header, empty bodies).".into()
     }
     fn assumptions(&self) -> Vec<String> {
         vec!["scope as in the statement: unfragmented, uncompressed updates (fragmentation and compression bits of the update header are 0); numberRectangles consistent with the rectangles present".into()]
@@ -276,14 +299,21 @@ impl Prop for C10 {
         None
     }
     fn run_case(&mut self, idx: u64) -> Outcome {
-        let c = self.cases[idx as usize].clone();
-        let mut conn = match raw_active(&ClientCfg::default(), ServerParams::default()) {
+        let c = crate::alloc::exempt(|| self.cases[idx as usize].clone());
+        let caps = match c.block {
+            "update-size-x-capabilities:minimal" => crate::peer::CapsKind::Minimal,
+            "update-size-x-capabilities:small-multifragment" => crate::peer::CapsKind::SmallMultifragment,
+            "update-size-x-capabilities:unknown-sets" => crate::peer::CapsKind::WithUnknown,
+            _ => ServerParams::default().caps,
+        };
+        let mut conn = match raw_active(&ClientCfg::default(), ServerParams { caps, ..Default::default() }) {
             Ok(c) => c,
             Err(e) => return Outcome::fail("setup", "honest-activation-failed", e),
         };
         let client = conn.client.as_mut().unwrap();
-        let mut got: Vec<Rect> = vec![];
-        let mut want: Vec<Rect> = vec![];
+        let big = if c.pdus.len() > 1000 { c.pdus.len() * 2 } else { 0 };
+        let mut got: Vec<Rect> = crate::alloc::exempt(|| Vec::with_capacity(big));
+        let mut want: Vec<Rect> = crate::alloc::exempt(|| Vec::with_capacity(big));
         let mut total_updates = 0;
         if c.coalesced {
             // the segment reaches the client whole, or 1, 3 or 7 bytes per read call (by case index)
@@ -295,6 +325,43 @@ impl Prop for C10 {
                 let payload = fastpath::updates_payload(&p.updates);
                 let long = p.long_form || payload.len() + 2 > 0x7f;
                 conn.sh.borrow_mut().push_to_client(&framing::fastpath(p.first_byte, &payload, long));
+            }
+        }
+        if c.block == "after-refused-slow-path-frames" {
+            use vref::{mcs, share};
+            let sid = crate::fsm::SHARE_A;
+            let sdi = |d: &[u8]| framing::tpkt(&framing::x224_dt(&mcs::send_data_indication(1002, 1003, d)));
+            let mut cut = share::set_error_info(sid, 1002, 5);
+            cut.truncate(cut.len() - 3);
+            let n = cut.len() as u16;
+            cut[0..2].copy_from_slice(&n.to_le_bytes());
+            let frames: Vec<Vec<u8>> = vec![
+                sdi(&share::share_control(0x1A, 1002, &[0; 12])),
+                sdi(&cut),
+                sdi(&share::share_data(sid, 1002, 0x26, &[2, 0, 0, 0])),
+                sdi(&share::share_control(0x13, 1002, &[0; 8])),
+                framing::tpkt(&framing::x224_dt(&mcs::send_data_indication(1002, 1004, &[1, 2, 3, 4]))),
+                framing::tpkt(&[0x06, 0x80, 0, 0, 0, 0, 0]),
+                sdi(&[]),
+                sdi(&[0x03]),
+            ];
+            for f in frames {
+                conn.sh.borrow_mut().push_to_client(&f);
+                let _ = client.read(|_| {});
+                conn.sh.borrow_mut().to_client.clear();
+            }
+        }
+        if c.block == "after-unparsable-updates" {
+            // malformed updates of every code 0..15 (the bitmap code 1 with another inner updateType, with a 2-byte body, with
+            // an empty body): no event is expected from them, an error may be reported, the session goes on
+            for code in 0..16u8 {
+                for body in [&[0x02u8, 0x00][..], &[][..], &[0x01, 0x00, 0x01, 0x00, 0x00][..]] {
+                    let mut w = vref::bytes::W::new();
+                    w.u8(code).u16le(body.len() as u16).bytes(body);
+                    conn.sh.borrow_mut().push_to_client(&framing::fastpath(0, &w.0, false));
+                    let _ = client.read(|_| {});
+                    conn.sh.borrow_mut().to_client.clear();
+                }
             }
         }
         let n_pdus = c.pdus.len();
